@@ -67,6 +67,9 @@ func c01sched(c *core.Ctx) {
 				return
 			}
 		}
+		if t.badStream() {
+			return
+		}
 		vsched.Logf("ok")
 	}})
 	// (b) two network publishers while a third client subscribes; afterwards the
@@ -161,6 +164,9 @@ func c01sched(c *core.Ctx) {
 			vsched.Failf("K received the probe %d times", n)
 			return
 		}
+		if t.badStream() {
+			return
+		}
 		vsched.Logf("ok")
 	}})
 	// (d) a subscriber that precedes a healthy one in the subscriber list is being torn
@@ -196,6 +202,9 @@ func c01sched(c *core.Ctx) {
 					vsched.Failf("S received %s where n%d at QoS %d was due", pk, k, q)
 					return
 				}
+			}
+			if t.badStream() {
+				return
 			}
 			vsched.Logf("ok")
 		}})
@@ -283,6 +292,9 @@ func c08sched(c *core.Ctx) {
 				vsched.Failf("a later subscription received %s, expected the new retained message with retain=1 at QoS %d", Describe(zr), q)
 				return
 			}
+			if t.badStream() {
+				return
+			}
 			vsched.Logf("ok")
 		}})
 	}
@@ -332,6 +344,74 @@ func c08sched(c *core.Ctx) {
 			vsched.Failf("the subscriber was acknowledged while a retained update was being delivered and never saw that update (neither as retained message nor forwarded): %s", Describe(got))
 			return
 		}
+		if t.badStream() {
+			return
+		}
+		vsched.Logf("ok")
+	}})
+	// the new subscriber's own outgoing ring is full: its processor has collected the
+	// retained message and waits for room for the SUBACK when the update arrives
+	scs = append(scs, scen{"subscriber with a full outgoing ring subscribes, retained update while its SUBACK waits", func() {
+		t := newTD()
+		p := t.connect("P", 0, 65535, false)
+		f := t.connect("F", 0, 65535, false)
+		s := t.connect("S", 256, 65535, false)
+		t.subscribe("S", "fill", 0)
+		p.rc.Send(&refcodec.Packet{Type: refcodec.PUBLISH, Topic: []byte("r"), Retain: true, QoS: 1, ID: 1, Payload: []byte(old)})
+		t.settleExcept()
+		for k := 0; k < 2; k++ {
+			f.rc.Send(bigPub("fill", 8000, byte(k)))
+			t.settleExcept()
+		}
+		// 16018 of 16384 bytes are taken; 359 more leave room for the SUBACK but not
+		// for the retained message
+		f.rc.Send(bigPub("fill", 350, 9))
+		t.settleExcept()
+		if vsched.Failed() {
+			return
+		}
+		vsched.Mark()
+		s.rc.Send(&refcodec.Packet{Type: refcodec.SUBSCRIBE, ID: 5, Topics: [][]byte{[]byte("r")}, QoSs: []byte{1}})
+		t.settleExcept()
+		p.rc.Send(&refcodec.Packet{Type: refcodec.PUBLISH, Topic: []byte("r"), Retain: true, QoS: 1, ID: 2, Payload: []byte("new")})
+		t.settleExcept()
+		// now the subscriber reads (its pipe holds 256 bytes at a time)
+		s.noRead = false
+		for i := 0; i < 8; i++ {
+			t.settleExcept()
+		}
+		if t.badStream() {
+			return
+		}
+		got := s.rc.Take()
+		if !hasType(got, refcodec.SUBACK) {
+			vsched.Failf("the SUBSCRIBE was not acknowledged: %s", Describe(got))
+			return
+		}
+		if !checkRetained("S", got, map[string]bool{old: true, "new": true}) {
+			return
+		}
+		sawNew, nRetained := false, 0
+		for _, pk := range publishesOn(got, "r") {
+			if string(pk.Payload) == "new" {
+				sawNew = true
+			}
+			if pk.Retain {
+				nRetained++
+			}
+		}
+		if nRetained != 1 || !sawNew {
+			vsched.Failf("the new subscription received %d messages with the retain flag and saw the update: %v: %s", nRetained, sawNew, Describe(publishesOn(got, "r")))
+			return
+		}
+		// the subscription was in the tree when the update was accepted: it is forwarded, too
+		if n := len(publishesOn(got, "r")); n != 2 {
+			vsched.Failf("the subscriber (subscribed before the update was accepted) received %d messages on the retained topic, expected the retained one and the forwarded update: %s", n, Describe(publishesOn(got, "r")))
+			return
+		}
+		if t.badStream() {
+			return
+		}
 		vsched.Logf("ok")
 	}})
 	// the retained publish is forwarded to a subscriber that is being torn down
@@ -356,14 +436,23 @@ func c08sched(c *core.Ctx) {
 			vsched.Failf("a later subscription received %s, expected the retained message with retain=1 at QoS 1", Describe(zr))
 			return
 		}
+		if t.badStream() {
+			return
+		}
 		vsched.Logf("ok")
 	}})
-	for _, sc := range scs {
+	for si, sc := range scs {
 		if c.Expired() || c.HasViolation() {
 			return
 		}
 		sc := sc
-		st := c.RunSched(explore.SchedOpts{Name: sc.name, Bound: -1, DevBound: dev, Cache: true, UseMark: true, Body: sc.body, MaxPoints: 100000, Check: schedCheck, Shard: c.Shard, NShards: c.NShards},
+		d := dev
+		if si < 2 && d < 2 {
+			// the two small "retained replace || subscribe" scenarios: the window between
+			// collecting the retained message and encoding it needs two deviations
+			d = 2
+		}
+		st := c.RunSched(explore.SchedOpts{Name: sc.name, Bound: -1, DevBound: d, Cache: true, UseMark: true, Body: sc.body, MaxPoints: 100000, Check: schedCheck, Shard: c.Shard, NShards: c.NShards},
 			func(v *explore.Violation) string { return "C08 " + sc.name + " :: " + violClass(v.Message) })
 		if st != nil && c.Shard == 0 {
 			c.Rep.Sample(map[string]interface{}{"scenario": sc.name, "deviations": dev, "executions": st.Executions, "states": st.States})
